@@ -6,6 +6,7 @@ import Anytree.Drv.Export
 import Anytree.Drv.Dict
 import Anytree.Drv.Render
 import Anytree.Drv.Resolver
+import Anytree.Drv.Attr
 /-!
 Line-protocol driver: one JSON case per input line, one JSON object per output line:
 `{"mirror": <what the model of the code computes>, "spec": <what the specification demands>}`
@@ -27,6 +28,8 @@ def dispatch (j : Json) : R (Json × Json) := do
   | "dict" => runDict j
   | "render" => runRender j
   | "resolve" => runResolve j
+  | "symlink" => runSymlink j
+  | "copy" => runCopy j
   | f => throw s!"unknown family {f}"
 
 def handle (line : String) : String :=
